@@ -181,6 +181,12 @@ TXN_FUNCS = {"contains", "regex", "normalized", "anyof", "startswith", "fuzzy", 
              "uppercase", "lowercase", "strip_prefix", "strip_suffix", "exists", "len", "sum", "any", "all", "next", "min", "max"}
 
 
+# every documented transaction function applied to a generator expression (first / only argument, second argument): whatever comes back
+# must be plain data or an expression error, never the repr of the generator object
+BASE_OK += [e for f in sorted(TXN_FUNCS) for e in (f"{f}((r for r in orders))", f"{f}((r.item for r in orders), \"a\")", f"{f}(description, (r.item for r in orders))",
+                                                    f"{f}((r.item for r in orders), \"a\", \"b\")")]
+
+
 def function_corpus():
     """Every public name of builtins and of the modules the evaluator imports, called as a function (C03: closed function tables)."""
     import builtins, statistics, re as _re, warnings as _w, datetime as _d, typing as _t, math, os, sys, operator, itertools as _it, collections, functools as _f
